@@ -91,7 +91,16 @@ func genC10(r *PRNG, tier string) *Scenario {
 			ops = append(ops, genInvalidOp(r))
 		}
 		if class == "deadlines" || r.Chance(1, 6) {
-			ops = append(ops, WOp{Kind: "wdl", DlMs: int64(r.Pick([]int{0, 1, 1000, 60000, 3600000}))})
+			dl := int64(r.Pick([]int{0, 1, 1000, 60000, 3600000}))
+			ops = append(ops, WOp{Kind: "wdl", DlMs: dl})
+			if class == "deadlines" && r.Chance(1, 3) {
+				// let time pass: a finite deadline that lapses makes the next flush time out (and the connection fail-stop);
+				// a deadline that has been replaced or cleared must not
+				ops = append(ops, WOp{Kind: "sleep", DlMs: int64(r.Pick([]int{2, 500, 1500, 70000}))})
+				if r.Bool() {
+					ops = append(ops, WOp{Kind: "wdl", DlMs: int64(r.Pick([]int{0, 3600000}))})
+				}
+			}
 		}
 	}
 	if class == "deadlines" && r.Chance(1, 3) {
